@@ -75,7 +75,8 @@ IDS = list(range(1, 14)) + [15, 16, 14]
 FIXED = {'where/under-not': '8fa2a67', 'where/under-or-subselect': '1a1b62e', 'semi/right-full-join': '34967fc',
          'semi/under-not': '34967fc', 'onconst/right-full-join': '34967fc', 'onconst/under-not': '34967fc',
          'limit/aggregate': '1052add', 'api-split/aggregate-or-distinct-evaluated-twice': 'b3f5fcd',
-         'api-split/offset-after-limit': 'b3f5fcd', 'cte-shadow/qualified-table-in-default-namespace': '6dae0a8'}
+         'api-split/offset-after-limit': 'b3f5fcd', 'where/is-null-on-null-supplying-side': '15097fa',
+         'cte-shadow/pushdown-strips-qualifier': 'a9036e5', 'cte-shadow/qualified-table-in-default-namespace': '6dae0a8'}
 
 
 def main():
